@@ -725,12 +725,18 @@ reg(P("C08", "calls", "c08",
 
 def _calls_sig(reset, event):
     ev = event or {}
+    if ev.get("ev") == "msg":
+        return {"kind": reset.get("kind"), "ev": "msg", "from": ev.get("from"), "nbody": len(ev.get("body") or []), "decl": ev.get("decl"),
+                "crc": ev.get("crc"), "outcome": ev.get("outcome")}
     return {"kind": reset.get("kind"), "sc": reset.get("sc"), "ev": ev.get("ev"), "what": ev.get("what", ev.get("where", "")),
             "retkind": ev.get("kind", ""), "detail": _re.sub(r"[0-9]+", "#", str(ev.get("detail", "")))[:60]}
 
 
 def _calls_mutate(field, value):
     def m(rec):
+        if rec.get("ev") == "msg":      # the Framing replay trace: claim another outcome
+            rec["outcome"] = "refused" if rec.get("outcome") != "refused" else "delivered"
+            return rec
         if rec.get("ev") == field[0] and field[1] in rec:
             rec[field[1]] = value
             return rec
@@ -741,24 +747,27 @@ def _calls_mutate(field, value):
 _CALLS_ASSUME = ["every case runs in a child process; a child that dies is the observation 'crash'",
                  "servers and scripted peers run on ephemeral ports on the loopback interface",
                  "payloads are identified by length and a 48-bit SHA-1 prefix"]
+_FRAMING_MC = {"quick": [("FramingMC", "Framing_dgram_small.cfg", 600), ("FramingMC", "Framing_stream_small.cfg", 600), ("FramingMC", "Framing_http_small.cfg", 600), ("FramingMC", "Framing_bug_udp.cfg", 600, "violation"), ("FramingMC", "Framing_bug_chunked.cfg", 600, "violation"), ("FramingMC", "Framing_bug_truncate.cfg", 600, "violation")],
+               "thorough": [("FramingMC", "Framing_dgram.cfg", 900), ("FramingMC", "Framing_stream.cfg", 900), ("FramingMC", "Framing_http.cfg", 900), ("FramingMC", "Framing_bug_udp.cfg", 600, "violation"), ("FramingMC", "Framing_bug_chunked.cfg", 600, "violation"), ("FramingMC", "Framing_bug_truncate.cfg", 600, "violation")]}
 reg(P("C12", "calls", "c12",
-      mc={"quick": [], "thorough": []}, traces=[("", "CallsTrace", "CallsTrace.cfg")], level="model_checking",
+      mc=_FRAMING_MC, traces=[("", "CallsTrace", "CallsTrace.cfg"), (".framing", "FramingTrace", "FramingTrace.cfg")], level="model_checking",
       rule="cases = transports x {honest traffic: request lengths around header sizes, 255/256, 4 KiB, 65 491..65 537, 1 MiB +- 1 "
            "(up to the transport's limit) x {zeros, header-looking bytes, random}; crafted request frames from a raw socket "
            "after another client left a recognisable payload: declared length larger / much larger / smaller / zero, short "
            "frame, bad checksum and every single-bit flip of the 64/96 header bits; crafted response frames from a scripted "
-           "peer to a real client}; every case is non-trivial",
+           "peer to a real client}; plus the replay of the Framing model's message space into udp / tcp / net/http "
+           "(every single message, seeded sequences of 2-3); every case is non-trivial",
       assumptions=_CALLS_ASSUME, sig_fn=_calls_sig, mutate=_calls_mutate(("handled", "h"), "000000000000"),
       design_ref="DESIGN.md §6 C12",
-      technique="TLC trace validation of recorded deliveries against the Framing monitor (ExactOrNothing)"))
+      technique="TLC model checking of Framing.tla (receivers of the datagram / stream / http frame layers against lying senders: ExactOrNothing, NoForeignBytes; three defect variants refuted) + replay of the model's message space into the real transports validated by FramingTrace + TLC trace validation of recorded deliveries against the Framing monitor"))
 reg(P("C13", "calls", "c13",
-      mc={"quick": [], "thorough": []}, traces=[("", "CallsTrace", "CallsTrace.cfg")], level="model_checking",
+      mc=_FRAMING_MC, traces=[("", "CallsTrace", "CallsTrace.cfg"), (".framing", "FramingTrace", "FramingTrace.cfg")], level="model_checking",
       rule="cases = transports x limits {8, 1000} (thorough: 5, 8, 1000, 65499) x body sizes limit-1, limit, limit+1, 5*limit+3 "
            "x declaration {truthful (honest client), absent (HTTP chunked), smaller than actual (HTTP Content-Length, raw "
            "socket / UDP frame), truthful raw frame}; every case is non-trivial",
       assumptions=_CALLS_ASSUME, sig_fn=_calls_sig, mutate=_calls_mutate(("ret", "kind"), "error"),
       design_ref="DESIGN.md §6 C13",
-      technique="TLC trace validation of recorded requests against the MaxLen monitor"))
+      technique="TLC model checking of Framing.tla (NeverOverLimit, RefusedIfOver for declared, absent and lying lengths) + replay of the model's message space into the real transports validated by FramingTrace + TLC trace validation of recorded requests against the MaxLen monitor"))
 reg(P("C11", "calls", "c11",
       mc={"quick": [], "thorough": []}, traces=[("", "CallsTrace", "CallsTrace.cfg")], level="fault_enumeration",
       rule="faults = {function panic with string / error / nil dereference / custom value, invoke-plugin panic, IO-plugin "
